@@ -63,8 +63,12 @@ NotifCount(g) == Cardinality({k \in 1..Len(Ev.notifRgs) : ToString(Ev.notifRgs[k
 RechargeLost == \E i \in Recharges :
                    \/ NotifCount(Res[i].rg) # Cardinality({j \in Recharges : Res[j].rg = Res[i].rg})
                    \/ ~(Res[i].rg \in DOMAIN Ev.rtypes[Res[i].u] /\ Ev.rtypes[Res[i].u][Res[i].rg] = "reserve")
+\* the notification is sent after the subscriber lock was given back (ChfConc: recharge.unlocking precedes the call to the
+\* consumer): a request the consumer sends for that subscriber while it handles the notification is served meanwhile
+ReauthStuck == Ev.reauth.asked /\ (Ev.reauth.timeout \/ Ev.reauth.status # 200)
 Step ==
   /\ viol' = viol
+       \cup (IF ReauthStuck THEN {V("all_requests_return", [Sit EXCEPT !.mix = {"recharge", "update-from-the-notified-consumer"}])} ELSE {})
        \cup (IF ~Ev.missed /\ RechargeLost THEN {V("recharge_not_lost", Sit)} ELSE {})
        \cup (IF Ev.missed THEN {V("all_requests_return", Sit)} ELSE {})
        \cup (IF \E i \in 1..Len(Res) : Res[i].status = -9 \/ Res[i].status >= 500 THEN {V("no_crash", Sit)} ELSE {})
